@@ -21,6 +21,22 @@ Theorem C13_partial_parameters_are_leading_arguments : forall names this st x ty
 Proof. exact parameter_is_first_argument. Qed.
 Print Assumptions C13_partial_parameters_are_leading_arguments.
 
+(* ... and in general: a handler function starts with exactly its declared parameters as variables, the k-th one holding the k-th argument of
+   the emission, whatever further arguments the signal carries; its body runs in that environment *)
+Theorem C13_partial_parameters_general : forall ps args k,
+  NoDup (map fst ps) -> (length ps <= length args)%nat -> (k < length ps)%nat ->
+  lookup (handler_env ps args) (fst (nth k ps (""%string, None))) = Some (Some (nth k args VVoid)).
+Proof. exact parameters_are_leading_arguments. Qed.
+Print Assumptions C13_partial_parameters_general.
+Theorem C13_partial_handler_runs_in_parameter_env : forall names this st f args,
+  run_handler names this st (CFunc f) args =
+  match f_body f with
+  | FStmt s => match exec names this st (handler_env (f_params f) args) s with Def (_, st1, _) => Def st1 | Undef => Undef | Stuck w => Stuck w end
+  | FExpr x => match eval names this st (handler_env (f_params f) args) x with Def (_, st1) => Def st1 | Undef => Undef | Stuck w => Stuck w end
+  end.
+Proof. exact run_handler_env. Qed.
+Print Assumptions C13_partial_handler_runs_in_parameter_env.
+
 (* an early return stops the handler: nothing after it is performed *)
 Theorem C13_partial_return_stops : forall names this st s, run_handler names this st (CStmt (SBlock [SReturn None; s])) [] = Def st.
 Proof. exact return_stops. Qed.
